@@ -11,6 +11,7 @@ import (
 	"testing"
 	"time"
 
+	"github.com/fabiolb/fabio/noroute"
 	"github.com/fabiolb/fabio/route"
 	"github.com/fabiolb/fabio/zzverif/ev"
 	"github.com/fabiolb/fabio/zzverif/vsched"
@@ -41,7 +42,7 @@ func (t *seamTransport) RoundTrip(req *http.Request) (*http.Response, error) {
 
 func TestVerifC07Sched(t *testing.T) {
 	L := ev.Begin("C07", "c07-sched", "model_checking",
-		"controlled scheduler over the real HTTPProxy.ServeHTTP + newHTTPProxy + httputil.ReverseProxy with an in-process upstream seam (RoundTripper) - http_proxy.go and http_handler.go rewritten (sync/atomic shims, a scheduling point before every statement), route package as in C06: 2 requests (different path, query, method, body, peer) to the same upstream served concurrently; every interleaving up to the preemption bound; oracle: each client receives the echo of its own request (method, rewritten target URL, Host, Forwarded / X-Forwarded-For with its own peer, body)")
+		"controlled scheduler over the real HTTPProxy.ServeHTTP + newHTTPProxy + httputil.ReverseProxy with an in-process upstream seam (RoundTripper) - http_proxy.go and http_handler.go rewritten (sync/atomic shims, a scheduling point before every statement), route package as in C06: 2 requests (different path, query, method, body, peer) to the same upstream served concurrently; every interleaving up to the preemption bound; oracle: each client receives the echo of its own request (method, rewritten target URL, Host, Forwarded / X-Forwarded-For with its own peer, body); plus a request without a route answered while the no-route page is replaced: status 404, and length and bytes of one page")
 	type rq struct {
 		method, target, host, peer, body string
 	}
@@ -128,6 +129,58 @@ func TestVerifC07Sched(t *testing.T) {
 		L.AddTraces(st.Executions)
 		L.NontrivialKey(name)
 		L.ForceSample(map[string]interface{}{"scenario": name, "requests": fmt.Sprint(pair), "executions": st.Executions, "preemption_bound_completed": st.BoundCompleted, "max_points": st.MaxPoints})
+	}
+	// the no-route page is replaced (registry watcher) while a request without a route is being answered:
+	// status, length and bytes of the answer belong to one page
+	{
+		oldPage, newPage := "<html>old</html>", "<html>a new and much longer no-route page</html>"
+		body := func(x *vsched.X) {
+			noroute.SetHTML(oldPage)
+			r := &rig{gc: route.NewGlobCache(10), matcher: "prefix"}
+			r.setTable(table)
+			r.proxy = &HTTPProxy{Transport: &seamTransport{}, Lookup: func(req *http.Request) *route.Target {
+				return r.tbl.Lookup(req, "", route.Picker["rr"], route.Matcher["prefix"], r.gc, false)
+			}}
+			var got, cl string
+			code := 0
+			x.Go("request", func() {
+				rec, _, _, err := r.do(rawRequest("GET", "/nothing", "unrouted.example", nil, nil, false), "10.0.0.1:1111", nil)
+				if err != nil {
+					panic(err)
+				}
+				got, cl, code = rec.Body.String(), rec.Header().Get("Content-Length"), rec.Code
+			})
+			x.Go("watcher", func() {
+				vsched.PointL("noroute.SetHTML")
+				noroute.SetHTML(newPage)
+			})
+			x.Run()
+			d := map[string]interface{}{"status": code, "content_length": cl, "body": got}
+			if code != 404 || (got != oldPage && got != newPage) || (cl != "" && cl != fmt.Sprint(len(got))) {
+				x.Fail("no-route-answer-mixes-two-pages", d)
+			}
+		}
+		bound := 2
+		if ev.Thorough() {
+			bound = 3
+		}
+		st := vsched.Explore(vsched.Options{Name: "no-route-page-replaced", Bound: bound, Shard: si, Shards: sn, Deadline: time.Now().Add(60 * time.Second),
+			OnFail: func(sig string, detail interface{}, choices []int, trace []int) {
+				L.Violation(sig, map[string]interface{}{"scenario": "no-route-page-replaced", "schedule": choices, "detail": detail})
+			}}, body)
+		noroute.SetHTML("")
+		if st.Infra != "" {
+			panic("VERIF-INFRA: " + st.Infra)
+		}
+		if st.Capped != "" {
+			L.Cap("no-route-page-replaced: " + st.Capped)
+		}
+		L.AddCases(st.Executions)
+		L.AddStates(st.Points + st.Executions)
+		L.AddTransitions(st.Points + st.Executions)
+		L.AddTraces(st.Executions)
+		L.NontrivialKey("no-route-page-replaced")
+		L.ForceSample(map[string]interface{}{"scenario": "no-route-page-replaced", "executions": st.Executions, "preemption_bound_completed": st.BoundCompleted, "max_points": st.MaxPoints})
 	}
 	L.End(true)
 }
